@@ -163,6 +163,8 @@ def impl_load(raw, data_file, exp_name=None, rerun=False, run_filter=None, argv=
     while reading the file `watch` (default: data_file)"""
     import rebench.persistence as pers
     watch = watch or data_file
+    if watch != "*":
+        watch = os.path.abspath(watch)       # one file, however the configuration spells its name
     res = Loaded()
     orig = RunId.loaded_data_point
     orig_load = pers._FilePersistence.load_data
@@ -175,12 +177,12 @@ def impl_load(raw, data_file, exp_name=None, rerun=False, run_filter=None, argv=
         return orig(self, dp, warmup)
 
     def load_hook(self, runs, discard):
-        cur["file"] = self._data_filename
+        cur["file"] = os.path.abspath(self._data_filename)
         try:
             return orig_load(self, runs, discard)
         finally:
             cur["file"] = None
-            if self._data_filename == watch:
+            if os.path.abspath(self._data_filename) == watch:
                 res.ids = dict(self._run_ids_in_file)
                 res.id_list = list(self._id_to_run_id)
     RunId.loaded_data_point = hook
